@@ -206,6 +206,93 @@ def check_case(case: dict) -> Outcome:
                     out.fail(f"C05:regex:{method}{cls}", f"{s!r} -> /{str(r.regexp)}/: subject {subj!r} regex={m} glob={g}")
                     return out
         return out
+    if kind == "regex_slot":
+        # the {regex} slot every string template offers (bound, cased, unbound): the string as regular
+        # expression inside the target's regex literal, protected by add_escaped_re or by re_escape
+        from sigma.backends.test import TextQueryTestBackend
+        from sigma.collection import SigmaCollection
+        s, delim, route, where = case["s"], case["delim"], case["route"], case["where"]
+        toks = rs.parse(s)
+        out.nontrivial = delim in s or _interesting(s)
+        out.label("regex-slot:" + route, "regex-slot:" + where)
+        attrs = {"re_escape": (), "re_escape_char": "\\", "re_escape_escape_char": False, "add_escaped_re": "",
+                 "str_quote": "'", "filter_chars": ""}
+        if route == "add_escaped_re":
+            attrs["add_escaped_re"] = delim
+        else:
+            attrs.update(re_escape=(delim,), re_escape_escape_char=True)
+        lit = delim + "{regex}" + delim
+        for name, tag in (("eq_expression", "eq"), ("wildcard_match_expression", "wm"), ("startswith_expression", "sw"),
+                          ("endswith_expression", "ew"), ("contains_expression", "ct"), ("case_sensitive_match_expression", "cm"),
+                          ("case_sensitive_startswith_expression", "csw"), ("case_sensitive_endswith_expression", "cew"),
+                          ("case_sensitive_contains_expression", "cct")):
+            attrs[name] = tag + "<{field}," + lit + ">"
+        attrs["unbound_value_str_expression"] = "kw<_," + lit + ">"
+        det = {"f": s} if where == "bound" else ({"f|cased": s} if where == "cased" else [s])
+        try:
+            q = type("C05R", (TextQueryTestBackend,), attrs)().convert(SigmaCollection.from_dicts([{
+                "title": "t", "logsource": {"category": "c"}, "detection": {"sel": det, "condition": "sel"}}]))
+        except SigmaError as e:
+            out.skipped = f"rule not convertible: {type(e).__name__}"
+            return out
+        text = q[0]
+        m = re.match(r"(eq|wm|sw|ew|ct|cm|csw|cew|cct|kw)<(f|_),", text)
+        if not m or len(q) != 1:
+            out.fail("C05:regex-slot:shape", f"{case}: query {q!r}")
+            return out
+        tag = m.group(1)
+        i = m.end()
+        if not text.startswith(delim, i):
+            out.fail("C05:regex-slot:shape", f"{case}: query {q!r}")
+            return out
+        i += 1
+        body = []
+        while True:
+            if i >= len(text):
+                out.fail("C05:regex-slot:unterminated", f"{case}: regex literal in {text!r} never ends")
+                return out
+            ch = text[i]
+            if ch == "\\":
+                if i + 1 >= len(text):
+                    out.fail("C05:regex-slot:unterminated", f"{case}: {text!r} ends in an escape character")
+                    return out
+                nxt = text[i + 1]
+                if route == "re_escape":  # target un-escapes \delim and \\ only
+                    if nxt in (delim, "\\"):
+                        body.append(nxt)
+                    else:
+                        out.fail("C05:regex-slot:dangling-escape", f"{case}: {text!r} has an escape before {nxt!r}")
+                        return out
+                else:  # the escaped pair belongs to the regular expression itself
+                    body.append(ch + nxt)
+                i += 2
+            elif ch == delim:
+                break
+            else:
+                body.append(ch)
+                i += 1
+        if text[i:] != delim + ">":
+            out.fail(f"C05:regex-slot:{route}:literal-terminated-early", f"{case}: {text!r}: the regex literal ends at {i} of {len(text)}")
+            return out
+        want = list(toks)
+        if tag in ("sw", "ct", "csw", "cct") and want and want[-1] == "*":
+            want = want[:-1]
+        if tag in ("ew", "ct", "cew", "cct") and want and want[0] == "*":
+            want = want[1:]
+        try:
+            pat = re.compile("".join(body), re.DOTALL)
+        except re.error as e:
+            out.fail(f"C05:regex-slot:{route}:invalid-regex", f"{case}: {text!r}: {e}")
+            return out
+        lits = [t[1] for t in toks if isinstance(t, tuple)]
+        letters = list(dict.fromkeys(["a", "x", delim, "\\", "."] + lits))[:8]
+        for k in range(0, 4):
+            for subj in itertools.product(letters, repeat=k):
+                subj = "".join(subj)
+                if (pat.fullmatch(subj) is not None) != rs.glob_match(want, subj):
+                    out.fail(f"C05:regex-slot:{route}:match-set", f"{case}: {text!r}: subject {subj!r} regex={pat.fullmatch(subj) is not None} glob={rs.glob_match(want, subj)}")
+                    return out
+        return out
     if kind == "reesc":
         pat, escaped, ech, flags = case["pattern"], case["escaped"], case["escape_char"], case["flags"]
         out.nontrivial = any(e in pat for e in escaped + [ech])
@@ -332,6 +419,17 @@ def run(ctx) -> None:
                 if i % ctx.nshards != ctx.shard:
                     continue
                 ctx.do({"kind": "regex", "s": s, "method": method, "subject_len": 3})
+    # the {regex} slot of the string templates: strings up to length 3 (4) over delimiter-relevant characters
+    for delim in ('"', "/"):
+        sal = ["\\", "*", "a", delim, "?"] if ctx.tier == "quick" else ["\\", "*", "a", delim, "?", ".", "'"]
+        for n in range(0, RL + 1):
+            for combo in itertools.product(sal, repeat=n):
+                for route in ("add_escaped_re", "re_escape"):
+                    for where in ("bound", "cased", "unbound"):
+                        i += 1
+                        if i % ctx.nshards != ctx.shard:
+                            continue
+                        ctx.do({"kind": "regex_slot", "s": "".join(combo), "delim": delim, "route": route, "where": where})
     # fields
     names_al = ["a", " ", "-", ".", "`", "'", '"', "\\", "=", "(", ","]
     for fc in FIELD_CONFIGS:
@@ -348,7 +446,7 @@ def run(ctx) -> None:
 
 @st.composite
 def random_cases(draw):
-    kind = draw(st.sampled_from(["render", "parse", "regex", "reesc", "reesc", "field"]))
+    kind = draw(st.sampled_from(["render", "parse", "regex", "regex_slot", "reesc", "reesc", "field"]))
     wide = st.lists(st.sampled_from(list("\\*?\"'^%_.:&aB é+()[]{}|$-/") + ["\\\\", "\\*", "ß"]), max_size=20).map("".join)
     if kind == "render":
         return {"kind": "render", "cfg": list(draw(st.sampled_from(CONFIGS))), "s": draw(wide)}
@@ -357,6 +455,10 @@ def random_cases(draw):
     if kind == "regex":
         s = "".join(draw(st.lists(st.sampled_from(list("\\*?a.A(x[é$+ßǅ")), max_size=6)))
         return {"kind": "regex", "s": s, "method": draw(st.sampled_from(["to_regex", "plain", "ignore_case_flag", "ignore_case_brackets"])), "subject_len": 3}
+    if kind == "regex_slot":
+        delim = draw(st.sampled_from(['"', "/", "'", "|"]))
+        return {"kind": "regex_slot", "s": "".join(draw(st.lists(st.sampled_from(list("\\*?a.(x") + [delim, delim, "\\" + delim, "\\*"]), max_size=8))),
+                "delim": delim, "route": draw(st.sampled_from(["add_escaped_re", "re_escape"])), "where": draw(st.sampled_from(["bound", "cased", "unbound"]))}
     if kind == "reesc":
         pat = "".join(draw(st.lists(st.sampled_from(["a", "/", "\\", "\\/", "bar", "b", ".*", "\\d", "(x)", "^", " ", "\\\\"]), max_size=8)))
         return {"kind": "reesc", "pattern": pat, "escaped": draw(st.lists(st.sampled_from(["/", "bar", " ", "a"]), max_size=3, unique=True)),
